@@ -54,6 +54,16 @@ func (c *levelFilterCore) Enabled(lvl Level) bool {
 }
 
 func (c *levelFilterCore) Level() Level {
+	// A level outside the named range is only known from what the filter and
+	// the wrapped core report themselves: the stricter of the two, if both
+	// really enable it.
+	lvl := LevelOf(c.level)
+	if cl := LevelOf(c.core); cl > lvl {
+		lvl = cl
+	}
+	if lvl < _minLevel && c.Enabled(lvl) {
+		return lvl
+	}
 	for l := _minLevel; l <= _maxLevel; l++ {
 		if c.Enabled(l) {
 			return l
